@@ -414,7 +414,7 @@ func (e *venc) unknownField(md protoreflect.MessageDescriptor) []byte {
 		return refwire.AppendFixed32(b, uint32(e.r.Uint64()))
 	}
 	n := e.r.Intn(12)
-	if e.r.Chance(1, 30) {
+	if e.r.Chance(1, 400) {
 		n = 70000
 	}
 	if e.r.Chance(1, 6) {
